@@ -4,6 +4,7 @@ import (
 	"encoding/json"
 	"fmt"
 	"os"
+	"os/exec"
 	"path/filepath"
 	"sort"
 	"strings"
@@ -16,7 +17,10 @@ type Mutant struct {
 	Property string   `json:"property"`
 	Rules    []string `json:"rules"`
 	Note     string   `json:"note"`
-	Edits    []struct {
+	// Patch: a unified diff (relative to /verif) applied to the scratch copy
+	// with `git apply` – used for the seeded changes under /verif/seeded.
+	Patch string `json:"patch,omitempty"`
+	Edits []struct {
 		File    string `json:"file"`
 		Find    string `json:"find"`
 		Replace string `json:"replace"`
@@ -113,7 +117,26 @@ func (m *Mutant) scratch(repo string) (dir string, why string) {
 		os.RemoveAll(dir)
 		return "", "copy failed: " + err.Error()
 	}
+	if m.Patch != "" {
+		p := m.Patch
+		if !filepath.IsAbs(p) {
+			p = filepath.Join(verifRoot(), p)
+		}
+		cmd := exec.Command("git", "apply", "--whitespace=nowarn", p)
+		cmd.Dir = dir
+		if out, err := cmd.CombinedOutput(); err != nil {
+			os.RemoveAll(dir)
+			return "", "patch does not apply: " + strings.TrimSpace(string(out))
+		}
+	}
 	return dir, ""
+}
+
+func verifRoot() string {
+	if exe, err := os.Executable(); err == nil {
+		return filepath.Dir(filepath.Dir(exe)) // /verif/bin/bbcheck -> /verif
+	}
+	return "/verif"
 }
 
 type mutantVerdict struct {
@@ -143,6 +166,9 @@ func evalMutant(repo string, m *Mutant, baseFail map[string]bool) mutantVerdict 
 			return v
 		}
 		rules = append(rules, r)
+	}
+	if len(m.Rules) == 0 {
+		rules = rulesFor(m.Property, "quick")
 	}
 	res := runRules(dir, rules, []BuildConfig{{"linux", "amd64"}}, false, nil)
 	for _, b := range res.broken {
@@ -209,6 +235,9 @@ func runMutant(repo, path string, verbose bool) int {
 				rules = append(rules, r)
 			}
 		}
+		if len(m.Rules) == 0 {
+			rules = rulesFor(m.Property, "quick")
+		}
 		bf := baseFailures(repo, rules)
 		v := evalMutant(repo, m, bf)
 		fmt.Printf("mutant %-40s %-16s %s\n", v.ID, v.Status, v.Note)
@@ -246,6 +275,9 @@ func runMutantSuite(repo, dir, prop string) map[string]any {
 				if r := ruleByID(id); r != nil {
 					rules = append(rules, r)
 				}
+			}
+			if len(m.Rules) == 0 {
+				rules = rulesFor(m.Property, "quick")
 			}
 			bf := baseFailures(repo, rules)
 			v := evalMutant(repo, m, bf)
